@@ -18,6 +18,7 @@ open RtcModel.Generated RtcModel.DtlsRecord RtcModel.DtlsHs RtcModel.Drv RtcMode
 def handle (stream : String) (args : List String) : String :=
   match stream, args with
   | "hs", _ => hsSession args
+  | "dl", _ => deadlineCheck args
   | "fp", [hx] =>
     match unhex hx with
     | some bs =>
